@@ -737,6 +737,19 @@ class Collections:
             return self._describe_copy(e.args[0])
         if isinstance(e, ast.Call) and _is_empty_value(e):
             return Desc()
+        if isinstance(e, ast.Call) and _call_name(e) in ("map", "filter") and len(e.args) == 2 and not e.keywords:
+            # map / filter whose callable mentions an outer loop variable (the expression is a substituted copy)
+            v = f"e{next(_fresh)}"
+            ref = ast.Name(id=v, ctx=ast.Load())
+            if _call_name(e) == "map":
+                elt = self.apply(e.args[0], [ref])
+                if elt is not None:
+                    return Desc([Contribution(elt, None, [Binder(ast.Name(id=v, ctx=ast.Store()), e.args[1], e)], [], node=e, how="map")])
+                return Desc(unknown=[f"`{norm(e, 60)}`: mapped callable not recognised"])
+            test = ref if (isinstance(e.args[0], ast.Constant) and e.args[0].value is None) else self.apply(e.args[0], [ref])
+            if test is not None:
+                return Desc([Contribution(ref, None, [Binder(ast.Name(id=v, ctx=ast.Store()), e.args[1], e)], [(test, True)], node=e, how="filter")])
+            return Desc(unknown=[f"`{norm(e, 60)}`: filter predicate not recognised"])
         return self._root(e)
 
     # ------------------------------------------------------------------ applying callables
@@ -752,7 +765,15 @@ class Collections:
                 env.setdefault(p, copy_node(d, fn.ctx_of(f)[0]))
             if any(p not in env for p in ps):
                 return None
-            return substitute(copy_node(f.body, fn.ctx_of(f)[0]), env)
+            out = substitute(copy_node(f.body, fn.ctx_of(f)[0]), env)
+            if parent(f) is None:
+                # a lambda inside a substituted copy (its body mentions an outer loop variable): helpers it calls stand for what
+                # they return, as they do in conditions of the function's own tree
+                try:
+                    out = fn.expand(out)
+                except Exception:  # noqa: BLE001
+                    pass
+            return out
         if isinstance(f, ast.Name) and parent(f) is not None:
             defs = fn.reaching(f.id, f)
             if len(defs) == 1 and defs[0].kind == "assign" and defs[0].value is not None and isinstance(defs[0].value, (ast.Lambda, ast.Name, ast.Attribute)):
